@@ -759,7 +759,7 @@ func classifySubmit(tc *testCase, o *outcome) string {
 
 // ---------- Coq printing ----------
 
-// coqBytes prints a byte string compactly: short printable ASCII as (b "..."), other short strings as
+// coqBytes prints a byte string compactly: printable ASCII up to 160 bytes as (b "..."), other short strings as
 // (hx "<hex>"), long ones as (u63 <len> [<7 bytes per primitive int, big-endian, zero padded>]), in chunks
 // (Coq's parser overflows its stack on very long literals and elaborates string literals slowly).
 // hx and u63 are decoded by Regen.Cases.IntertxRun.
@@ -767,13 +767,20 @@ func coqChunk(s []byte) string {
 	if len(s) == 0 {
 		return "[]"
 	}
-	if len(s) <= 48 {
+	if len(s) <= 160 {
+		printable := true
 		for _, c := range s {
 			if c < 0x20 || c > 0x7e || c == '"' {
-				return "(hx \"" + hex.EncodeToString(s) + "\")"
+				printable = false
+				break
 			}
 		}
-		return common.CoqBytes(s)
+		if printable {
+			return common.CoqBytes(s)
+		}
+		if len(s) <= 48 {
+			return "(hx \"" + hex.EncodeToString(s) + "\")"
+		}
 	}
 	var sb strings.Builder
 	fmt.Fprintf(&sb, "(u63 %d%%N [", len(s))
